@@ -277,6 +277,10 @@ func (w *World) initTimeOnly(fn *ssa.Function) bool {
 	switch {
 	case fn.Synthetic == "package initializer":
 		res = true
+	case w.onceOfBody(fn) != nil:
+		// the body of a recognised lazy initialisation: what it writes is
+		// written before, and never after, anything reads it
+		res = true
 	case fn.Synthetic == "" && fn.Parent() == nil && (fn.Name() == "init" || strings.HasPrefix(fn.Name(), "init#")):
 		res = true
 	case fn.Parent() != nil:
@@ -356,13 +360,45 @@ func (w *World) BaseMem() map[string]AV {
 	eff := w.Effects()
 	written := map[*ssa.Global]bool{}
 	for fn, ef := range eff {
-		if fn.Synthetic == "package initializer" {
+		if fn.Synthetic == "package initializer" || w.onceOfBody(fn) != nil {
 			continue
 		}
 		for g := range ef.WritesGlobals {
 			written[g] = true
 		}
 	}
+	// what recognised lazy initialisations build: run F in the engine from the
+	// state the initialisers leave and keep the constants it stores
+	defer func() {
+		for _, oi := range w.onceInits() {
+			w.onceBuilding = true
+			e := NewEngine(w)
+			e.MaxSteps = 2000000
+			paths := e.Run(oi.F, nil, nil)
+			w.onceBuilding = false
+			var ret []Path
+			for _, p := range paths {
+				if p.Ret != nil {
+					ret = append(ret, p)
+				}
+			}
+			if e.Err != nil || len(paths) != 1 || len(ret) != 1 || ret[0].St.unsupported != "" {
+				continue // not a straight-line construction: contents stay unknown
+			}
+			for g := range oi.Globals {
+				pre := "G:" + globalName(g)
+				for loc, v := range ret[0].St.mem {
+					if loc != pre && !strings.HasPrefix(loc, pre+"|") {
+						continue
+					}
+					switch v.Kind {
+					case KInt, KStr, KBool, KNil, KFunc:
+						w.baseMem[loc] = v
+					}
+				}
+			}
+		}
+	}()
 	for _, pkg := range []*ssa.Package{w.Root, w.Enc} {
 		for _, m := range pkg.Members {
 			if gv, ok := m.(*ssa.Global); ok && w.nilFuncVar(gv) {
@@ -547,8 +583,9 @@ func (w *World) readOnlyOutsideInit(g *ssa.Global) bool {
 		}
 		return true
 	}
+	oi := w.onceOfGlobal(g)
 	for fn := range w.AllFuncs {
-		if !w.InRepo(fn) || fn.Blocks == nil || fn.Synthetic == "package initializer" {
+		if !w.InRepo(fn) || fn.Blocks == nil || fn.Synthetic == "package initializer" || (oi != nil && oi.Body[fn]) {
 			continue
 		}
 		for _, b := range fn.Blocks {
@@ -580,4 +617,306 @@ func (w *World) readOnlyOutsideInit(g *ssa.Global) bool {
 		}
 	}
 	return true
+}
+
+// ---------- lazily initialised package state (sync.Once) ----------
+
+// onceInit: a package-level sync.Once O whose only use is O.Do(F) with one
+// function F, together with the package-level variables that F (and the
+// functions only F runs) initialises. It is recognised only when nothing else
+// writes those variables and every read of them outside F's body is dominated
+// by a call O.Do(F) in the same function: then every reader sees the fully
+// initialised value (Once gives the happens-before edge), the value never
+// changes afterwards, and the initialisation is, for every observer, the same
+// as if it had happened in the package initialiser.
+type onceInit struct {
+	O       *ssa.Global
+	F       *ssa.Function
+	Body    map[*ssa.Function]bool
+	Globals map[*ssa.Global]bool
+}
+
+func isOnceDoCall(c *ssa.CallCommon) bool {
+	f := c.StaticCallee()
+	return f != nil && f.String() == "(*sync.Once).Do" && len(c.Args) == 2
+}
+
+func funcValue(v ssa.Value) *ssa.Function {
+	for {
+		if ct, ok := v.(*ssa.ChangeType); ok {
+			v = ct.X
+			continue
+		}
+		break
+	}
+	switch x := v.(type) {
+	case *ssa.Function:
+		if len(x.FreeVars) == 0 {
+			return x
+		}
+	case *ssa.MakeClosure:
+		if f, ok := x.Fn.(*ssa.Function); ok && len(x.Bindings) == 0 {
+			return f
+		}
+	}
+	return nil
+}
+
+// onceInits recognises the lazily initialised state of the repository.
+func (w *World) onceInits() []*onceInit {
+	if w.onceDone {
+		return w.onceMemo
+	}
+	w.onceDone = true
+	type use struct {
+		fn *ssa.Function
+		in ssa.Instruction
+	}
+	uses := map[*ssa.Global][]use{}
+	fuses := map[*ssa.Function][]ssa.Instruction{}
+	for fn := range w.AllFuncs {
+		if !w.InRepo(fn) || fn.Blocks == nil {
+			continue
+		}
+		for _, b := range fn.Blocks {
+			for _, in := range b.Instrs {
+				for _, op := range in.Operands(nil) {
+					switch x := (*op).(type) {
+					case *ssa.Global:
+						if pt, ok := x.Type().(*types.Pointer); ok && pt.Elem().String() == "sync.Once" {
+							uses[x] = append(uses[x], use{fn, in})
+						}
+					case *ssa.Function:
+						fuses[x] = append(fuses[x], in)
+					}
+				}
+			}
+		}
+	}
+	var out []*onceInit
+	var os []*ssa.Global
+	for o := range uses {
+		os = append(os, o)
+	}
+	sort.Slice(os, func(i, j int) bool { return globalName(os[i]) < globalName(os[j]) })
+nextOnce:
+	for _, o := range os {
+		if !w.InRepoPath(o.Pkg.Pkg.Path()) {
+			continue
+		}
+		var f *ssa.Function
+		doSites := map[ssa.Instruction]bool{}
+		for _, u := range uses[o] {
+			ci, ok := u.in.(ssa.CallInstruction)
+			if !ok || !isOnceDoCall(ci.Common()) || ci.Common().Args[0] != ssa.Value(o) {
+				continue nextOnce
+			}
+			if _, isCall := u.in.(*ssa.Call); !isCall {
+				continue nextOnce // deferred or spawned: not a plain "initialise, then use"
+			}
+			g := funcValue(ci.Common().Args[1])
+			if g == nil || !w.InRepo(g) || g.Blocks == nil || (f != nil && g != f) {
+				continue nextOnce
+			}
+			f = g
+			doSites[u.in] = true
+		}
+		if f == nil {
+			continue
+		}
+		// F is used for nothing else
+		for _, in := range fuses[f] {
+			if !doSites[in] {
+				if mc, ok := in.(*ssa.MakeClosure); ok && mc.Fn == ssa.Value(f) {
+					continue
+				}
+				continue nextOnce
+			}
+		}
+		// the body: F and the unexported functions only the body calls
+		body := map[*ssa.Function]bool{f: true}
+		cg := w.CallGraph()
+		for changed := true; changed; {
+			changed = false
+			for h := range body {
+				node := cg.Nodes[h]
+				if node == nil {
+					continue
+				}
+				for _, e := range node.Out {
+					c := e.Callee.Func
+					if c == nil || body[c] || !w.InRepo(c) || c.Blocks == nil || e.Site == nil || e.Site.Common().StaticCallee() != c {
+						continue
+					}
+					if c.Object() == nil || c.Object().Exported() || w.addressTaken()[c] {
+						continue
+					}
+					only := true
+					if cn := cg.Nodes[c]; cn != nil {
+						for _, in := range cn.In {
+							if in.Site != nil && in.Site.Common().StaticCallee() == c && !body[in.Caller.Func] {
+								only = false
+							}
+						}
+					}
+					if only {
+						body[c] = true
+						changed = true
+					}
+				}
+			}
+		}
+		// the variables the body writes
+		oi := &onceInit{O: o, F: f, Body: body, Globals: map[*ssa.Global]bool{}}
+		for h := range body {
+			for _, b := range h.Blocks {
+				for _, in := range b.Instrs {
+					for _, op := range in.Operands(nil) {
+						g, ok := (*op).(*ssa.Global)
+						if !ok || g == o {
+							continue
+						}
+						if !w.InRepoPath(g.Pkg.Pkg.Path()) {
+							continue
+						}
+						if !globalUseReadOnly(in, g) {
+							oi.Globals[g] = true
+						}
+					}
+				}
+			}
+		}
+		if len(oi.Globals) == 0 {
+			continue
+		}
+		// nothing else writes them, and every read outside the body follows O.Do(F)
+		for g := range oi.Globals {
+			for fn := range w.AllFuncs {
+				if !w.InRepo(fn) || fn.Blocks == nil || body[fn] {
+					continue
+				}
+				for _, b := range fn.Blocks {
+					for i, in := range b.Instrs {
+						for _, op := range in.Operands(nil) {
+							if *op != ssa.Value(g) {
+								continue
+							}
+							if !globalUseReadOnly(in, g) {
+								continue nextOnce // written elsewhere (the package initialiser included)
+							}
+							dominated := false
+							for _, b2 := range fn.Blocks {
+								for j, in2 := range b2.Instrs {
+									if doSites[in2] && (b2 != b && b2.Dominates(b) || b2 == b && j < i) {
+										dominated = true
+									}
+								}
+							}
+							if !dominated {
+								continue nextOnce
+							}
+						}
+					}
+				}
+			}
+		}
+		out = append(out, oi)
+	}
+	w.onceMemo = out
+	return out
+}
+
+// globalUseReadOnly: instruction in uses the package-level variable g only to
+// read it (a load, or an element / field address that is only loaded from).
+func globalUseReadOnly(in ssa.Instruction, g *ssa.Global) bool {
+	var readOnly func(v ssa.Value) bool
+	readOnly = func(v ssa.Value) bool {
+		refs := v.Referrers()
+		if refs == nil {
+			return true
+		}
+		for _, r := range *refs {
+			switch x := r.(type) {
+			case *ssa.UnOp, *ssa.DebugRef:
+			case *ssa.IndexAddr:
+				if !readOnly(x) {
+					return false
+				}
+			case *ssa.FieldAddr:
+				if !readOnly(x) {
+					return false
+				}
+			default:
+				return false
+			}
+		}
+		return true
+	}
+	switch x := in.(type) {
+	case *ssa.UnOp:
+		if x.Op != token.MUL || x.X != ssa.Value(g) {
+			return false
+		}
+		// a loaded map / slice that is updated is a write of the variable's contents
+		for _, r := range *x.Referrers() {
+			switch y := r.(type) {
+			case *ssa.MapUpdate:
+				if y.Map == ssa.Value(x) {
+					return false
+				}
+			case *ssa.Call:
+				if b, ok := y.Call.Value.(*ssa.Builtin); ok && (b.Name() == "delete" || b.Name() == "clear") {
+					return false
+				}
+			case *ssa.IndexAddr:
+				if !readOnly(y) {
+					return false
+				}
+			}
+		}
+		return true
+	case *ssa.IndexAddr:
+		return readOnly(x)
+	case *ssa.FieldAddr:
+		return readOnly(x)
+	case *ssa.Slice:
+		// g[:] handed around: read-only when every use of the slice only reads
+		return x.X == ssa.Value(g) && sliceReadOnly(x, readOnly, 0)
+	case *ssa.DebugRef:
+		return true
+	}
+	return false
+}
+
+// onceOfBody: fn belongs to the body of a recognised lazy initialisation.
+func (w *World) onceOfBody(fn *ssa.Function) *onceInit {
+	for _, oi := range w.onceInits() {
+		if oi.Body[fn] {
+			return oi
+		}
+	}
+	return nil
+}
+
+// onceOfDo: the call is O.Do(F) of a recognised lazy initialisation.
+func (w *World) onceOfDo(c *ssa.CallCommon) *onceInit {
+	if !isOnceDoCall(c) {
+		return nil
+	}
+	for _, oi := range w.onceInits() {
+		if c.Args[0] == ssa.Value(oi.O) {
+			return oi
+		}
+	}
+	return nil
+}
+
+// onceOfGlobal: g is initialised by a recognised lazy initialisation.
+func (w *World) onceOfGlobal(g *ssa.Global) *onceInit {
+	for _, oi := range w.onceInits() {
+		if oi.Globals[g] || oi.O == g {
+			return oi
+		}
+	}
+	return nil
 }
